@@ -8,10 +8,15 @@ p = os.path.join(V, "tools", "not_applicable.json")
 if os.path.exists(p):
     na_reasons = json.load(open(p))
 checks, claimed = [], set()
+# tools/claimed.txt: ids reviewed by the coordinator and registered in MANIFEST.json (one per line)
+allow = None
+cp = os.path.join(V, "tools", "claimed.txt")
+if os.path.exists(cp):
+    allow = set(l.strip() for l in open(cp) if l.strip() and not l.startswith("#"))
 for f in sorted(glob.glob(os.path.join(V, "checks.d", "*.json"))):
     s = json.load(open(f))
     pid = s["property"]
-    if s.get("disabled"):
+    if s.get("disabled") or (allow is not None and pid not in allow):
         continue
     claimed.add(pid)
     c = {"property_id": pid,
